@@ -20,6 +20,7 @@
 //     KXC id b aux / KXS id b aux.. / KXE id b aux..   GM key-exchange parsers -> ok | err (model: err | pass)
 //   corpus-only decoders (model prints SKIP):
 //     D id <decoder> b [aux...]                                           -> ok | err
+// Handshake messages additionally get structure-aware mutants (tlstree.go).
 // Every call runs under recover() and a deadline; a call slower than 2 s (twice) is reported as
 // SLOW <ms>, one that allocates more than 64 MiB as ALLOC <MiB>, a panic as PANIC, no return within
 // 10 s as HANG.
@@ -1004,6 +1005,22 @@ func gen(seed uint64, tier string) []string {
 		}
 		for i := 0; i < rnd; i++ {
 			emit(b, wrap(r.Bytes(1+r.Intn(200))))
+		}
+		// structure-aware mutants of handshake messages: one inner change, every enclosing length recomputed
+		kind := ""
+		if strings.HasPrefix(b.dec, "tls:") {
+			kind = b.dec[4:]
+		} else if b.dec == "CRQ" {
+			kind = "certificateRequestGM"
+		}
+		if kind != "" {
+			seen := map[string]bool{}
+			for _, m := range tlsMutants(kind, b.data) {
+				if !seen[string(m)] {
+					seen[string(m)] = true
+					emit(b, m)
+				}
+			}
 		}
 	}
 	// ber2der: modelled cases from the PKCS#7 encodings, nesting, the repaired blow-up family
